@@ -62,6 +62,9 @@ type Attack struct {
 	// document id, from, initialState, from_prior iss): "case" (letter case of the method-specific id swapped), "scheme"
 	// (DID:PEER:), "space" (trailing blank), "pct" (one character percent-encoded).
 	Spell string `json:"spell,omitempty"`
+	// Fresh: the documents mallory presents in this attack carry a key pair she has just made (never seen by anybody, linked
+	// to nothing) instead of the key of her own connection; afterwards she sends an application message packed with that key.
+	Fresh bool `json:"fresh,omitempty"`
 }
 
 func spellDID(d, how string) string {
@@ -152,6 +155,11 @@ type runner struct {
 	res  *result
 	exs  []*exchRun
 	spec *Spec
+	// pending: steps that became possible while the schedule was running (the first message over a DIDComm v2 connection,
+	// the other side's answer to it): drain picks them up and interleaves them like the others
+	pending []func()
+	pubV2   map[string]string // inviter -> the public DID its DIDComm v2 invitations come from
+	waiting int               // local steps still waiting while one of them runs
 }
 
 // ---------- one step on an agent, with trace ----------
@@ -552,6 +560,9 @@ func (r *runner) drain(local []func()) {
 			return
 		}
 
+		local = append(local, r.pending...)
+		r.pending = nil
+
 		n := r.w.net.QueueLen()
 		if n == 0 && len(local) == 0 {
 			return
@@ -574,6 +585,7 @@ func (r *runner) drain(local []func()) {
 		if k < len(local) {
 			f := local[k]
 			local = append(local[:k:k], local[k+1:]...)
+			r.waiting = len(local)
 			f()
 		} else {
 			idx := k - len(local)
@@ -688,10 +700,21 @@ func (r *runner) setup(e *exchRun) error {
 			return fmt.Sprintf("ICreateInv %d %d", r.w.inv(id), r.w.key(e.invKey))
 		}, false, "")
 	case "oobv2": // out-of-band v2: no handshake, a DIDComm v2 connection by DID (the inviter is a public DID)
-		id := "did:c10pub:" + e.Inviter + base58ish(r.rng, 8)
+		// a public DID serves any number of invitations: four times in five the inviter invites from the one it has
+		id := r.pubV2[e.Inviter]
 
-		if _, err := x.PublishDIDv2(id); err != nil {
-			return err
+		if id == "" || r.rng.Intn(5) == 0 {
+			id = "did:c10pub:" + e.Inviter + base58ish(r.rng, 8)
+
+			if _, err := x.PublishDIDv2(id); err != nil {
+				return err
+			}
+
+			if r.pubV2 == nil {
+				r.pubV2 = map[string]string{}
+			}
+
+			r.pubV2[e.Inviter] = id
 		}
 
 		inv, err := x.oob2.CreateInvitation(oob2client.WithFrom(id), oob2client.WithLabel(e.Inviter))
@@ -775,13 +798,59 @@ func (r *runner) acceptStep(e *exchRun) {
 
 		e.inviteeConn = c
 
-		// the inviter learns of the connection with the first message
-		if yr := y.Record(c); yr != nil {
-			msg := service.DIDCommMsgMap{"id": uuid.New().String(), "type": pingV2Type, "body": map[string]interface{}{}}
-			if err := y.ctx.Messenger().Send(msg, yr.MyDID, yr.TheirDID); err != nil {
-				r.res.obs["first-message-error:"+e.Invitee] = err.Error()
+		// the inviter learns of the connection with the first message, which carries the invitee's new peer DID document;
+		// it is a step of its own (connections accepted at the same time send theirs in any order), and so is the
+		// inviter's answer, after which the invitee stops attaching the document
+		x := r.w.agent(e.Inviter)
+
+		var answer func(tries int) func()
+
+		answer = func(tries int) func() {
+			return func() {
+				yr := y.Record(c)
+				if yr == nil {
+					return
+				}
+
+				rec, err := x.lookup.GetConnectionRecordByDIDs(yr.TheirDID, yr.MyDID)
+				if err != nil {
+					if tries > 0 && (r.w.net.QueueLen() > 0 || r.waiting > 0 || len(r.pending) > 0) {
+						r.pending = append(r.pending, answer(tries-1))
+					}
+
+					return
+				}
+
+				msg := service.DIDCommMsgMap{"id": uuid.New().String(), "type": pingV2Type, "body": map[string]interface{}{}}
+				if err := x.ctx.Messenger().Send(msg, rec.MyDID, rec.TheirDID); err != nil {
+					r.res.obs["answer-error:"+e.Inviter] = err.Error()
+				}
 			}
 		}
+
+		var first func(tries int) func()
+
+		first = func(tries int) func() {
+			return func() {
+				// an accepted connection may lie unused for a while: other connections get going in the meantime
+				if tries > 0 && r.rng.Intn(5) != 0 && (r.w.net.QueueLen() > 0 || len(r.pending) > 0 || r.waiting > 0) {
+					r.pending = append(r.pending, first(tries-1))
+
+					return
+				}
+
+				if yr := y.Record(c); yr != nil {
+					msg := service.DIDCommMsgMap{"id": uuid.New().String(), "type": pingV2Type, "body": map[string]interface{}{}}
+					if err := y.ctx.Messenger().Send(msg, yr.MyDID, yr.TheirDID); err != nil {
+						r.res.obs["first-message-error:"+e.Invitee] = err.Error()
+					}
+
+					r.pending = append(r.pending, answer(30))
+				}
+			}
+		}
+
+		r.pending = append(r.pending, first(40))
 
 		return
 	}
@@ -1033,7 +1102,57 @@ func (r *runner) ping(from, to *Agent, fr, tr *Rec, when string, v2 bool) {
 	}
 }
 
+// attributionSound: whatever reached a message handler attributed to a DID was sent with a key of the document that DID
+// resolves to on that agent (judged for envelopes whose sender key is a raw 32-byte key).
+func (r *runner) attributionSound(when string) {
+	for _, a := range []*Agent{r.w.A, r.w.B} {
+		a.mu.Lock()
+		handled := append([]Handled{}, a.handled...)
+		in := append([]*Packet{}, a.inLog...)
+		a.mu.Unlock()
+
+		for _, h := range handled {
+			if h.TheirDID == "" {
+				continue
+			}
+
+			for _, p := range in {
+				if p.Plain == nil || len(p.FromKey) != 32 || (plainStr(p, "@id") != h.MsgID && plainStr(p, "id") != h.MsgID) {
+					continue
+				}
+
+				res := a.Resolve(h.TheirDID)
+				if !res.OK {
+					continue
+				}
+
+				from := rawKey(p.FromKey)
+				found := false
+
+				for _, k := range res.RecKeys {
+					if canonKey(k) == from {
+						found = true
+					}
+				}
+
+				for _, k := range res.Keys {
+					if "raw:"+k == from {
+						found = true
+					}
+				}
+
+				if !found {
+					r.res.failf("attribution-unsound:"+when, "%s: %s's handler saw (my %s, their %s) for a message sent with key %s, which is no key of the document %s resolves to",
+						when, a.Name, h.MyDID, h.TheirDID, from, h.TheirDID)
+				}
+			}
+		}
+	}
+}
+
 func (r *runner) checkAll(when string) {
+	r.attributionSound(when)
+
 	for _, e := range r.exs {
 		r.evaluate(e, when)
 	}
@@ -1191,7 +1310,17 @@ func runCase(spec *Spec, kind string, idx int) *hx.Record {
 			x, y := w.agent(e.Inviter), w.agent(e.Invitee)
 			yr := y.Record(e.inviteeConn)
 
-			if yr == nil || e.v2 {
+			if yr == nil {
+				continue
+			}
+
+			if e.v2 {
+				// a DIDComm v2 connection at rest: the inviter holds the mirrored record (its first message was understood)
+				if _, err := x.lookup.GetConnectionRecordByDIDs(yr.TheirDID, yr.MyDID); err != nil && yr.State == "completed" {
+					res.failf("honest-exchange-stalled", "honest %s connection at rest with every message delivered: %s has (my %s, their %s), %s has no record of it",
+						e.Style, y.Name, yr.MyDID, yr.TheirDID, x.Name)
+				}
+
 				continue
 			}
 
@@ -1238,6 +1367,21 @@ func runCase(spec *Spec, kind string, idx int) *hx.Record {
 	}
 
 	res.obs["completed"], res.obs["states"], res.obs["packets"] = completed, states, len(w.net.Log)
+
+	if verbose {
+		for _, p := range w.net.Log {
+			from, to := plainStr(p, "from"), ""
+			if l, ok := p.Plain["to"].([]interface{}); ok && len(l) > 0 {
+				to = fmt.Sprint(l[0])
+			}
+
+			if i := strings.Index(from, "?"); i > 0 {
+				from = from[:i] + "?initialState"
+			}
+
+			fmt.Printf("[packet %d %s -> %s] %s from=%.40s to=%.30s unpackErr=%v handlerErr=%v\n", p.Seq, p.From, p.To, p.Type, from, to, p.UnpackErr, p.HandlerErr)
+		}
+	}
 
 	if spec.Mediated && len(r.exs) > 0 && r.exs[0].done {
 		res.obs["alice-resolves-bob-to"] = r.exs[0].resX
@@ -1436,6 +1580,35 @@ func (r *runner) attack(at Attack) error {
 		w.noCoq("a DID spelling that some of the code's parsers refuse (upper-case scheme, blank, percent-encoding): direct oracle only")
 	}
 
+	// a key pair made for this attack: every document mallory presents lists it instead of her connection's key
+	freshKey := ""
+
+	if at.Fresh && len(mdest.RecipientKeys) > 0 {
+		old := canonKey(mdest.RecipientKeys[0])
+
+		var oldRaw []byte
+
+		if strings.HasPrefix(old, "raw:") {
+			fmt.Sscanf(old[4:], "%x", &oldRaw)
+		}
+
+		if len(oldRaw) != 32 {
+			return fmt.Errorf("fresh key: mallory's connection key is not a 32-byte key")
+		}
+
+		_, pub, e := w.M.ctx.KMS().CreateAndExportPubKeyBytes(kms.ED25519Type)
+		if e != nil {
+			return e
+		}
+
+		oldDK, _ := fingerprint.CreateDIDKey(oldRaw)
+		freshKey, _ = fingerprint.CreateDIDKey(pub)
+		doc := strings.ReplaceAll(string(raw), oldDK, freshKey)
+		doc = strings.ReplaceAll(doc, strings.TrimPrefix(oldDK, "did:key:"), strings.TrimPrefix(freshKey, "did:key:"))
+		doc = strings.ReplaceAll(doc, base58.Encode(oldRaw), base58.Encode(pub))
+		raw = []byte(doc)
+	}
+
 	rename := func(to string) string {
 		if to == victimDID {
 			to = named
@@ -1489,6 +1662,20 @@ func (r *runner) attack(at Attack) error {
 	inv, err := newInv()
 	if err != nil {
 		return err
+	}
+
+	if freshKey != "" {
+		// afterwards: an application message packed with the new key (whoever it is attributed to, it is not the victim)
+		defer func() {
+			r.drain(nil)
+
+			if e := w.M.ctx.OutboundDispatcher().Send(map[string]interface{}{"@type": basicType, "@id": uuid.New().String()}, freshKey,
+				&service.Destination{RecipientKeys: inv.RecipientKeys, ServiceEndpoint: model.NewDIDCommV1Endpoint(x.Endpoint)}); e != nil {
+				r.res.obs["fresh-key-probe-skipped"] = e.Error()
+			}
+
+			r.drain(nil)
+		}()
 	}
 
 	switch at.Kind {
@@ -2409,6 +2596,16 @@ func main() {
 		}
 	}
 
+	// the attacks in which mallory presents a document of her making, with a key pair made for the occasion (linked to
+	// nothing anywhere) and a message packed with that key afterwards
+	for _, ak := range []string{"req-repoint", "req-repoint-keys", "req-docid-mismatch", "req-docid-fresh", "lc-req-repoint", "init-repoint", "req-keysteal",
+		"req-blocks-two-v1", "req-same-thread"} {
+		for _, target := range []string{"alice", "bob"} {
+			add("freshkey", &Spec{Cfg: cfgs[0], Seed: rng.U64(), Exch: []Exch{{Inviter: "alice", Invitee: "bob", Style: []string{"dx", "legacy"}[rng.Intn(2)]}, withM(target)},
+				Attacks: []Attack{{Kind: ak, Target: target, Fresh: true}}, Restart: []string{"", "", "target"}[rng.Intn(3)]})
+		}
+	}
+
 	// related thread ids: several tries per side, also while a further exchange is under way
 	for i := 0; i < 12; i++ {
 		target := []string{"alice", "bob"}[i%2]
@@ -2514,6 +2711,27 @@ func main() {
 		add("v2", s)
 	}
 
+	// several DIDComm v2 connections between the same two parties in the same direction (the invitee holds several records
+	// with one peer DID and a peer DID of its own on each), accepted at the same time; first messages and answers interleaved
+	for i := 0; i < 12; i++ {
+		s := &Spec{Cfg: cfgs[4], Seed: rng.U64()}
+		inviter, invitee := "alice", "bob"
+
+		if i%2 == 1 {
+			inviter, invitee = "bob", "alice"
+		}
+
+		for j, n := 0, 3+rng.Intn(2); j < n; j++ {
+			s.Exch = append(s.Exch, Exch{Inviter: inviter, Invitee: invitee, Style: "oobv2"})
+		}
+
+		if i >= 10 {
+			s.Restart = "random"
+		}
+
+		add("v2", s)
+	}
+
 	for _, ak := range []string{"req-repoint", "req-repoint-keys", "req-repoint-endpoint", "req-docid-mismatch", "init-repoint", "rotate-takeover",
 		"rotate-takeover-relkid", "req-keysteal", "ping-from-spoof"} {
 		for _, target := range []string{"alice", "bob"} {
@@ -2576,6 +2794,8 @@ func main() {
 			if rng.Intn(4) == 0 {
 				at.Spell = []string{"case", "scheme", "space", "pct"}[rng.Intn(4)]
 			}
+
+			at.Fresh = rng.Intn(4) == 0
 
 			s.Attacks = append(s.Attacks, at)
 		}
